@@ -105,6 +105,7 @@ type Tx struct {
 
 // Commit do commit action
 func (tx *Tx) Commit() error {
+	defer tx.conn.resetAfterTx()
 	tx.beforeCommit()
 	return tx.commitOnLocal()
 }
@@ -121,6 +122,7 @@ func (tx *Tx) beforeCommit() {
 }
 
 func (tx *Tx) Rollback() error {
+	defer tx.conn.resetAfterTx()
 	if len(txHooks) != 0 {
 		hl.RLock()
 		defer hl.RUnlock()
